@@ -66,5 +66,9 @@ META = {
  'C13': dict(technique='runtime monitoring: long double LAPACK-definition backward error of the returned X as oracle for BERR, replay of each column through ?gstrs+?gsrfs, exact NOREFINE clauses + ASan/UBSan',
              level_text='BERR(j) inside a derived band around the componentwise backward error of the returned X for the system actually factored (scaled A, scaled B, X in scaled variables), FERR finite and non-negative, at most five steps, NOREFINE gives ferr = berr = 1 exactly and the unrefined X bitwise; all Trans, equed outcomes, storage orientations, ill-conditioned and badly scaled inputs',
              level_note='trusted: long double reference; rows whose denominator underflows are undecided; vendor-BLAS runs fall back to tolerance where bitwise replay differs'),
+
+ 'C09': dict(technique='runtime monitoring: ThreadSanitizer on mixed concurrent jobs + bitwise output comparison alone / concurrent / after unrelated calls under junk-filled heaps',
+             level_text='job pools mixing drivers, factor/solve/refine/condition routines, orderings and ILU in four precisions on 2-16 threads with injected yields at allocation points (TSan build: data-race reports with a library frame), and bitwise equality of every job output with its solo reference, across repetitions and call histories (-O2 and ASan builds); evidence reports jobs in flight and distinct interleaving signatures',
+             level_note='trusted: TSan (fully instrumented library; the monitor ledger mutex is hidden from TSan so it creates no happens-before edges); absence of races is only shown for the interleavings produced'),
 }
 NOT_APPLICABLE = [dict(property_id=p, reason='check not registered yet in this revision (under construction; see DESIGN.md section 5)') for p in _ALL if p not in META]
